@@ -40,16 +40,21 @@ func (valdec sliceDecoder) Decode(dec *Decoder, p interface{}, tag byte) {
 			count = 0
 		}
 		slice := reflect2.PtrOf(p)
-		n := dec.prealloc(count)
+		n := dec.preallocCount(count)
 		valdec.t.UnsafeGrow(slice, n)
 		dec.AddReference(p)
-		for i := 0; i < count; i++ {
+		for i := 0; i < count && dec.Error == nil; i++ {
 			if i == n {
 				// the count could not be checked against the input: grow as elements arrive
 				if dec.Error != nil {
 					break
 				}
-				if n *= 2; n > count {
+				if n == 0 {
+					n = 8
+				} else {
+					n *= 2
+				}
+				if n > count {
 					n = count
 				}
 				valdec.t.UnsafeGrow(slice, n)
